@@ -6,9 +6,9 @@ CONSTANTS
   MaxR = 4
   Ds = {2}
   InitKinds = {"Measure", "DiagMeasure", "PDF:S"}
-  FactorKinds = {"Factor", "Rank1", "Linear", "Const", "Measure", "PDF:S"}
+  FactorKinds = {"Factor", "Rank1", "Linear", "Const"}
   CondKinds = {}
-  RInit = {1, 2}
+  RInit = {2}
   SampleMod = 1
   SampleRes = 0
   Rich = FALSE
